@@ -145,8 +145,11 @@ def check_c13(prop, tier, seed):
         raise Infra("negative control failed: with OutOfSync = panic and one cut TLC should reach the crash")
     run.extra["negative_control"] = "OutOfSync = \"panic\": TLC reaches the reader's panic after one cut (%s)" % res.violated
     # the TLC counterexample replayed on the real pool through the verif hooks
-    rp = run.run_vh("pool-replay", ["-out", run.path("replay.json")])
-    rr = json.load(open(run.path("replay.json")))
+    for attempt in range(3):
+        run.run_vh("pool-replay", ["-out", run.path("replay.json")])
+        rr = json.load(open(run.path("replay.json")))
+        if rr["exit"] not in (4, 5):
+            break  # 4/5: the scenario could not be set up (scheduling); try again before judging
     run.extra["counterexample_replay"] = {"exit": rr["exit"], "panic_out_of_sync": rr["panic_out_of_sync"], "steps": rr["steps"]}
     run.traces += 1
     if rr["panic_out_of_sync"] or rr["exit"] != 0:
